@@ -202,6 +202,19 @@ pub mod spec {
         }
     }
 
+    /// `vals` were produced by successive successful `parse_option` rounds starting at (pre, len0) and ending in (cur, len)
+    pub open spec fn iter_rel<T, P: Parser<T>>(p: P, catch: bool, pre: State, len0: usize, vals: Seq<T>, cur: State, len: usize) -> bool
+        decreases vals.len(),
+    {
+        if vals.len() == 0 {
+            cur == pre && len == len0
+        } else {
+            // (the trigger must not be the recursive call: its fuel differs between definition and use)
+            exists|mid: State, lenm: usize| iter_rel(p, catch, pre, len0, vals.drop_last(), mid, lenm)
+                && #[trigger] opt_rel(p, mid, lenm, catch, Ok::<Option<T>, Error>(Some(vals.last())), cur, len)
+        }
+    }
+
     /// `post` is `pre` again (completion bookkeeping, when compiled in, is taken from `mid`)
     #[cfg(not(feature = "autocomplete"))]
     pub open spec fn restored(pre: State, mid: State, post: State) -> bool { post == pre }
@@ -268,6 +281,28 @@ pub mod lemmas {
         }
     }
 
+    pub proof fn lemma_step_trans(a: State, b: State, c: State)
+        requires step(a, b), step(b, c), a.wf(),
+        ensures step(a, c),
+    {}
+
+    pub proof fn lemma_step_refl(a: State)
+        requires a.wf(),
+        ensures step(a, a),
+    {}
+
+    pub proof fn lemma_iter_push<T, P: Parser<T>>(p: P, catch: bool, pre: State, len0: usize, vals: Seq<T>, mid: State, lenm: usize, v: T, cur: State, len: usize)
+        requires
+            iter_rel(p, catch, pre, len0, vals, mid, lenm),
+            opt_rel(p, mid, lenm, catch, Ok::<Option<T>, Error>(Some(v)), cur, len),
+        ensures
+            iter_rel(p, catch, pre, len0, vals.push(v), cur, len),
+    {
+        assert(vals.push(v).drop_last() =~= vals);
+        assert(vals.push(v).last() == v);
+        assert(iter_rel(p, catch, pre, len0, vals.push(v).drop_last(), mid, lenm));
+    }
+
     pub broadcast group ledger {
         lemma_count_update,
         lemma_count_witness,
@@ -276,6 +311,7 @@ pub mod lemmas {
 
 pub mod real {
     use super::spec::*;
+    use super::lemmas::*;
     broadcast use {super::lemmas::ledger, super::prelude::axiom_peq_char};
     use super::*;
     use super::prelude::*;
@@ -952,6 +988,161 @@ pub trait Parser<T> {
     open spec fn pwf(&self) -> bool { self.inner.pwf() }
     open spec fn rel(&self, pre: State, r: Result<T, Error>, post: State) -> bool { self.inner.rel(pre, r, post) }
 //@@ drop fn meta
+//@@ end
+
+
+//@@ type src/structs.rs | struct ParseSome
+//@@ unit structs.ParseSome tags=
+//@@ end
+
+//@@ fn src/structs.rs | impl Parser for ParseSome | fn eval
+//@@ unit structs.ParseSome.eval tags=C01,C04,C06 loops=1
+//@@ members
+    open spec fn pwf(&self) -> bool { self.inner.pwf() }
+    /// values of successive rounds, in the order the rounds ran; fails with its own (catchable) message iff there were none;
+    /// a final error of any round is returned unchanged
+    open spec fn rel(&self, pre: State, r: Result<Vec<T>, Error>, post: State) -> bool {
+        exists|vals: Seq<T>, last: Result<Option<T>, Error>, mid: State, lenm: usize, l2: usize|
+            #![trigger iter_rel(self.inner, self.catch, pre, usize::MAX, vals, mid, lenm), opt_rel(self.inner, mid, lenm, self.catch, last, post, l2)]
+            iter_rel(self.inner, self.catch, pre, usize::MAX, vals, mid, lenm)
+            && opt_rel(self.inner, mid, lenm, self.catch, last, post, l2)
+            && match last {
+                Ok(Some(_)) => false,
+                Ok(None) => if vals.len() == 0 { r == Err::<Vec<T>, Error>(Error(Message::ParseSome(self.message))) } else { r is Ok && r->Ok_0@ == vals },
+                Err(e) => r == Err::<Vec<T>, Error>(e),
+            }
+    }
+//@@ drop fn meta
+//@@ insert before 1 `while let`
+let ghost mut g_args = *args; let ghost mut g_len = len; let ghost mut g_res = res@;
+//@@ loop 1
+            invariant_except_break
+                g_args == *args, g_len == len, g_res == res@,
+            invariant
+                self.inner.pwf(),
+                old(args).wf(),
+                g_args.wf(),
+                step(*old(args), g_args),
+                iter_rel(self.inner, self.catch, *old(args), usize::MAX, g_res, g_args, g_len),
+            ensures
+                g_res == res@,
+                step(g_args, *args),
+                exists|l2: usize| opt_rel(self.inner, g_args, g_len, self.catch, Ok::<Option<T>, Error>(None), *args, l2),
+            decreases len,
+//@@ insert after 1 `res.push(val);`
+proof {
+    lemma_iter_push(self.inner, self.catch, *old(args), usize::MAX, g_res, g_args, g_len, res@.last(), *args, len);
+    lemma_step_trans(*old(args), g_args, *args);
+    g_args = *args; g_len = len; g_res = res@;
+}
+//@@ insert before 1 `if res.is_empty() {`
+proof { lemma_step_trans(*old(args), g_args, *args); }
+//@@ end
+
+
+//@@ type src/structs.rs | struct ParseCount
+//@@ unit structs.ParseCount tags=
+//@@ end
+
+//@@ fn src/structs.rs | impl Parser for ParseCount | fn eval
+//@@ unit structs.ParseCount.eval tags=C01,C04,C06 loops=1
+//@@ members
+    open spec fn pwf(&self) -> bool { self.inner.pwf() }
+    /// number of successful rounds; stops after a round that did not change the number of remaining items;
+    /// a final error of any round is returned unchanged (never caught: catch = false)
+    open spec fn rel(&self, pre: State, r: Result<usize, Error>, post: State) -> bool {
+        ||| exists|vals: Seq<T>, lenm: usize| #[trigger] iter_rel(self.inner, false, pre, usize::MAX, vals, post, lenm)
+                && vals.len() > 0 && r == Ok::<usize, Error>(vals.len() as usize)
+        ||| exists|vals: Seq<T>, last: Result<Option<T>, Error>, mid: State, lenm: usize, l2: usize|
+            #![trigger iter_rel(self.inner, false, pre, usize::MAX, vals, mid, lenm), opt_rel(self.inner, mid, lenm, false, last, post, l2)]
+            iter_rel(self.inner, false, pre, usize::MAX, vals, mid, lenm)
+            && opt_rel(self.inner, mid, lenm, false, last, post, l2)
+            && match last {
+                Ok(Some(_)) => false,
+                Ok(None) => r == Ok::<usize, Error>(vals.len() as usize),
+                Err(e) => r == Err::<usize, Error>(e),
+            }
+    }
+//@@ drop fn meta
+//@@ insert before 1 `while (`
+let ghost mut g_args = *args; let ghost mut g_len = len; let ghost mut g_vals = Seq::<T>::empty();
+//@@ loop 1
+            invariant_except_break
+                g_args == *args, g_len == len,
+            invariant
+                self.inner.pwf(),
+                old(args).wf(),
+                g_args.wf(),
+                step(*old(args), g_args),
+                iter_rel(self.inner, false, *old(args), usize::MAX, g_vals, g_args, g_len),
+                g_vals.len() == res,
+                res as int + g_len as int <= usize::MAX as int,
+            ensures
+                step(g_args, *args),
+                (exists|l2: usize| opt_rel(self.inner, g_args, g_len, false, Ok::<Option<T>, Error>(None), *args, l2)) || (res > 0 && g_args == *args),
+            decreases len,
+//@@ insert before 1 `res += 1;`
+proof {
+    let v = choose|v: T| opt_rel(self.inner, g_args, g_len, false, Ok::<Option<T>, Error>(Some(v)), *args, len);
+    lemma_iter_push(self.inner, false, *old(args), usize::MAX, g_vals, g_args, g_len, v, *args, len);
+    lemma_step_trans(*old(args), g_args, *args);
+    g_args = *args; g_len = len; g_vals = g_vals.push(v);
+}
+//@@ insert before 1 `Ok(res)`
+proof { lemma_step_trans(*old(args), g_args, *args); }
+//@@ end
+
+
+//@@ type src/structs.rs | struct ParseLast
+//@@ unit structs.ParseLast tags=
+//@@ end
+
+//@@ fn src/structs.rs | impl Parser for ParseLast | fn eval
+//@@ unit structs.ParseLast.eval tags=C01,C04,C06 loops=1
+//@@ members
+    open spec fn pwf(&self) -> bool { self.inner.pwf() }
+    /// the value of the last successful round; with no successful round the inner parser's own outcome (its error);
+    /// a final error of any round is returned unchanged
+    open spec fn rel(&self, pre: State, r: Result<T, Error>, post: State) -> bool {
+        ||| exists|vals: Seq<T>, lenm: usize| #[trigger] iter_rel(self.inner, false, pre, usize::MAX, vals, post, lenm)
+                && vals.len() > 0 && r == Ok::<T, Error>(vals.last())
+        ||| exists|vals: Seq<T>, last: Result<Option<T>, Error>, mid: State, lenm: usize, l2: usize, pl: State|
+            #![trigger iter_rel(self.inner, false, pre, usize::MAX, vals, mid, lenm), opt_rel(self.inner, mid, lenm, false, last, pl, l2)]
+            iter_rel(self.inner, false, pre, usize::MAX, vals, mid, lenm)
+            && opt_rel(self.inner, mid, lenm, false, last, pl, l2)
+            && match last {
+                Ok(Some(_)) => false,
+                Ok(None) => if vals.len() > 0 { r == Ok::<T, Error>(vals.last()) && post == pl } else { self.inner.rel(pl, r, post) && step(pl, post) },
+                Err(e) => r == Err::<T, Error>(e) && post == pl,
+            }
+    }
+//@@ drop fn meta
+//@@ insert before 1 `while let`
+let ghost mut g_args = *args; let ghost mut g_len = len; let ghost mut g_vals = Seq::<T>::empty();
+//@@ loop 1
+            invariant_except_break
+                g_args == *args, g_len == len,
+            invariant
+                self.inner.pwf(),
+                old(args).wf(),
+                g_args.wf(),
+                step(*old(args), g_args),
+                iter_rel(self.inner, false, *old(args), usize::MAX, g_vals, g_args, g_len),
+                g_vals.len() == 0 <==> last is None,
+                g_vals.len() > 0 ==> last == Some(g_vals.last()),
+            ensures
+                step(g_args, *args),
+                (exists|l2: usize| opt_rel(self.inner, g_args, g_len, false, Ok::<Option<T>, Error>(None), *args, l2)) || (g_vals.len() > 0 && g_args == *args),
+            decreases len,
+//@@ insert after 1 `last = Some(val);`
+proof {
+    lemma_iter_push(self.inner, false, *old(args), usize::MAX, g_vals, g_args, g_len, last->Some_0, *args, len);
+    lemma_step_trans(*old(args), g_args, *args);
+    g_args = *args; g_len = len; g_vals = g_vals.push(last->Some_0);
+}
+//@@ insert before 1 `if let Some(last) = last {`
+proof { lemma_step_trans(*old(args), g_args, *args); }
+let ghost g_pl = *args;
 //@@ end
 
 }
